@@ -43,7 +43,9 @@ BIN = {'+': 'OP_ADD', '-': 'OP_SUB', '*': 'OP_MUL', '/': 'OP_DIV',
        '<': 'OP_LT', '>': 'OP_GT', '<=': 'OP_LE', '>=': 'OP_GE'}
 OPERANDS = [['n', 3], ['n', -2.5], ['n', 0], ['s', '7'], ['s', 'abc'],
             ['s', ''], ['b', True], ['b', False], ['z'], ['d', 43831],
-            ['n', 1e10], ['s', '1e2']]
+            ['n', 1e10], ['s', '1e2'],
+            # the ends of the number range: results may leave it
+            ['n', 1e308], ['n', -1.5e308], ['n', 5e-324], ['s', '1e308']]
 # formulas that YIELD each error in a cell
 YIELD = {'#DIV/0!': '=1/0', '#N/A': '=NA()', '#VALUE!': '="a"+1',
          '#NUM!': '=SQRT(-1)', '#REF!': '=#REF!', '#NAME?': '=#NAME?',
